@@ -1,0 +1,152 @@
+//go:build verif
+
+// Verification shim for property C13, part 3 (add-only, build tag "verif"): the executor driven with
+// multi-entry batches and with queries created by Session.Query, so that what IsIdempotent answers is
+// computed by the driver from the same inputs an application gives it.
+
+package gocql
+
+import (
+	"fmt"
+	"net"
+
+	"github.com/gocql/gocql/internal/streams"
+)
+
+// VerifC13Entry is one batch entry.
+type VerifC13Entry struct {
+	Bind       bool // added with Batch.Bind instead of Batch.Query
+	Set        bool // Entries[i].Idempotent is assigned (otherwise left at its default)
+	Idempotent bool
+}
+
+// VerifC13Idem says how the query or batch is marked.
+type VerifC13Idem struct {
+	Entries        []VerifC13Entry // batch
+	SessionBatch   bool            // batch made by Session.NewBatch instead of NewBatch
+	ClusterDefault bool            // ClusterConfig.DefaultIdempotence of the session
+	Override       *bool           // query: Query.Idempotent(*Override) if not nil
+}
+
+// VerifC13Run2 is VerifC13Run with the idempotence input of executeQuery's gate built the way an
+// application builds it: a batch from its entries (Batch.Query / Batch.Bind, per-entry Idempotent), a
+// query from a session's ClusterConfig.DefaultIdempotence (Session.Query -> defaultsFromSession) and an
+// optional Query.Idempotent override.  s.Idempotent is ignored.
+func VerifC13Run2(s *VerifC13Script, id *VerifC13Idem) VerifC13Result {
+	ids := map[*HostInfo]int{}
+	pools := map[*HostInfo]*hostConnPool{}
+	pcp := &policyConnPool{hostConnPools: map[string]*hostConnPool{}}
+	sel := make([]SelectedHost, len(s.Hosts))
+	// host used only to pre-load the query metrics with InitialAttempts
+	first := &HostInfo{hostId: "preload", connectAddress: net.IPv4(10, 255, 255, 255), port: 9042}
+	for i, h := range s.Hosts {
+		info := &HostInfo{
+			hostId:         fmt.Sprintf("offer-%d", i),
+			connectAddress: net.IPv4(10, byte(h.ID>>16), byte(h.ID>>8), byte(h.ID)),
+			port:           9042,
+			state:          NodeUp,
+		}
+		if h.Down {
+			info.state = NodeDown
+		}
+		ids[info] = h.ID
+		if !h.NoPool {
+			p := &hostConnPool{host: info, size: 1}
+			if h.NoConn {
+				p.closed = true
+			} else {
+				p.conns = []*Conn{{host: info, streams: streams.New(4)}}
+			}
+			pcp.hostConnPools[info.hostId] = p
+			pools[info] = p
+		}
+		if h.InfoNil {
+			sel[i] = &verifC13Selected{info: nil, id: h.ID, s: s}
+		} else {
+			sel[i] = &verifC13Selected{info: info, id: h.ID, s: s}
+		}
+	}
+	pos := 0
+	next := func() SelectedHost {
+		if pos >= len(sel) {
+			if s.OnPick != nil {
+				s.OnPick(-1)
+			}
+			return nil
+		}
+		h := sel[pos]
+		pos++
+		if s.OnPick != nil {
+			s.OnPick(s.Hosts[pos-1].ID)
+		}
+		return h
+	}
+
+	var inner ExecutableQuery
+	var attempts func() int
+	var cons func() Consistency
+	if s.Batch {
+		var b *Batch
+		if id.SessionBatch {
+			b = (&Session{cfg: ClusterConfig{DefaultIdempotence: id.ClusterDefault}}).NewBatch(LoggedBatch)
+		} else {
+			b = NewBatch(LoggedBatch)
+		}
+		for i, e := range id.Entries {
+			if e.Bind {
+				b.Bind("verif", func(*QueryInfo) ([]interface{}, error) { return nil, nil })
+			} else {
+				b.Query("verif", i)
+			}
+			if e.Set {
+				b.Entries[i].Idempotent = e.Idempotent
+			}
+		}
+		b.rt = s.Retry
+		if s.Spec != nil {
+			b.spec = s.Spec
+		}
+		b.Cons = s.Consistency
+		b.context = s.Ctx
+		if s.InitialAttempts != 0 {
+			b.AddAttempts(s.InitialAttempts, first)
+		}
+		inner, attempts, cons = b, b.Attempts, b.GetConsistency
+	} else {
+		q := (&Session{cfg: ClusterConfig{DefaultIdempotence: id.ClusterDefault, RetryPolicy: s.Retry}}).Query("verif")
+		q.cons = s.Consistency
+		q.context = s.Ctx
+		if id.Override != nil {
+			q.Idempotent(*id.Override)
+		}
+		if s.Spec != nil {
+			q.spec = s.Spec
+		}
+		if s.InitialAttempts != 0 {
+			q.AddAttempts(s.InitialAttempts, first)
+		}
+		inner, attempts, cons = q, q.Attempts, q.GetConsistency
+	}
+	vq := &verifC13Query{ExecutableQuery: inner, s: s, ids: ids, pools: pools}
+	ex := &queryExecutor{pool: pcp, policy: &verifC13Policy{next: next}}
+
+	var iter *Iter
+	var execErr error
+	if s.Direct {
+		iter = ex.do(vq.Context(), vq, next)
+	} else {
+		iter, execErr = ex.executeQuery(vq)
+	}
+	res := VerifC13Result{Host: -1, ExecErr: execErr, AttemptsNow: attempts}
+	if iter != nil {
+		res.Err = iter.err
+		if iter.host != nil {
+			if id, ok := ids[iter.host]; ok {
+				res.Host = id
+			}
+		}
+	}
+	res.Attempts = attempts()
+	res.Consistency = cons()
+	return res
+}
